@@ -26,7 +26,6 @@ var NotApplicable = map[string]string{
 	"C16": "The property is about the sign of a comparator over all pairs/triples of byte strings (antisymmetry, transitivity, agreement with the (table, start key, id) tuple order). Its truth lies in index arithmetic over data-dependent comma positions, not in any pairing, ordering, ownership or exhaustiveness shape of the code; every structural statement about region.Compare that can be checked soundly (purity, signed constant returns) is also true of wrong comparators, and a syntactic a<->b symmetry check would fire on harmless edits. Deciding it needs input enumeration or symbolic execution, which are outside the static-analysis family.",
 }
 
-
 // Thorough runs the additional thorough-tier work for a property and returns
 // extra coverage keys.
 func Thorough(id string, prog *kit.Prog, ctx *kit.Ctx, verif string, seed int64, noMut bool) map[string]any {
